@@ -9,7 +9,7 @@ import math
 
 from pgverif.gen import log_uniform
 
-R_GAS = 8.314462618
+R_GAS = 8.31446261815324  # exact (N_A * k_B), the value scipy.constants carries
 
 MODEL_NAMES = [
     "Henry", "Langmuir", "DSLangmuir", "TSLangmuir", "BET", "GAB", "Freundlich", "DA", "DR", "Quadratic", "TemkinApprox", "Virial", "Toth",
@@ -207,7 +207,12 @@ def pressure_window(name, P, r=None, max_cov=0.98):
     # saturating models: find p where coverage reaches max_cov by bisection on the reference equation
     lo, hi = 1e-12, 1e12
     target = max_cov * sat
-    f = lambda p: reference_loading(name, P, p)
+    def f(p):
+        try:
+            return reference_loading(name, P, p)
+        except (OverflowError, ZeroDivisionError):
+            return sat
+
     if f(hi) < target:
         return (1e-6 / max(hs, 1e-12) * sat, hi if False else 1e6)
     for _ in range(200):
@@ -260,3 +265,39 @@ def sample_loadings(name, P, r, n, sort=True):
         return []
     xs = [log_uniform(r, max(lo, hi * 1e-6), hi) for _ in range(n)]
     return sorted(xs) if sort else xs
+
+
+def henry_probe_pressure(name, P):
+    """A pressure at which the first-order deviation from Henry's law is <= ~1e-8 (relative)."""
+    eps = 1e-8
+    if name == "Henry":
+        return 1.0
+    if name == "Langmuir":
+        return eps / P["K"]
+    if name == "DSLangmuir":
+        return eps / max(P["K1"], P["K2"])
+    if name == "TSLangmuir":
+        return eps / max(P["K1"], P["K2"], P["K3"])
+    if name == "BET":
+        return eps / (P["N"] + P["C"])
+    if name == "GAB":
+        return eps / (P["K"] * (1 + P["C"]))
+    if name == "Quadratic":
+        ka, kb = abs(P["Ka"]), abs(P["Kb"])
+        cands = [1.0]
+        if ka > 0:
+            cands.append(eps / ka)
+            if kb > 0:
+                cands.append(eps * ka / kb)
+        if kb > 0:
+            cands.append(math.sqrt(eps / kb))
+        return min(cands)
+    if name == "TemkinApprox":
+        return eps / (P["K"] * (1 + abs(P["tht"])))
+    if name == "Toth":
+        # n = n_m K p (1 + (Kp)^t)^(-1/t) ~ n_m K p (1 - (Kp)^t / t)
+        return (eps * P["t"])**(1.0 / P["t"]) / P["K"]
+    if name == "JensenSeaton":
+        # n ~ K p (1 - (Kp/a)^c / c)
+        return min((eps * P["c"])**(1.0 / P["c"]) * P["a"] / P["K"], eps / P["b"])
+    raise KeyError(name)
